@@ -18,7 +18,7 @@ DEFAULT_WEIGHTS = {
     "present_node": 8, "present_node_odd": 1, "present_child": 10, "value": 14, "req": 6, "battery": 3, "sketch": 3,
     "heartbeat": 4, "presleep": 4, "time": 2, "config": 2, "idreq": 3, "adopt": 1, "gwready": 1, "discover_resp": 1,
     "internal_other": 2, "stream_cfg": 2, "stream_blk": 2, "stream_bad": 1, "stream_other": 1,
-    "unknown_traffic": 4, "invalid_frame": 4, "garbage": 3, "ctl_set": 6, "ctl_fw": 2, "metric": 1,
+    "unknown_traffic": 4, "invalid_frame": 4, "garbage": 3, "ctl_set": 6, "ctl_setpair": 0, "ctl_fw": 2, "metric": 1,
     "advance": 2, "restart": 0, "clockjump": 0,
 }
 
@@ -268,6 +268,19 @@ class Gen:
             payload = ""
         else:
             payload = full + "0"
+        if rng.random() < 0.2:
+            # the right digits with blanks or tabs between or before them (some hex decoders skip white space;
+            # the frame is malformed all the same).  For a scheduled node the digits are those of a request
+            # that WOULD be answered if it were well-formed.
+            target = self.model.ota.target.get(nid)
+            if target is not None and target in self.model.ota.firmware:
+                blocks, crc = self.model.ota.advertised(target)[:2]
+                full = le16(target[0], target[1], blocks, crc, 0x0102) if sub == 0 else le16(target[0], target[1], 0)
+            pos = rng.choice([0, 4, 8, len(full) - 4])
+            payload = full[:pos] + rng.choice([" ", "\t", "  "]) + full[pos:]
+            self.hostile += 1
+            self.emit_line(f"{nid};255;4;0;{sub};{payload}")
+            return
         if rng.random() < 0.25:
             # hex look-alikes with characters outside ASCII (what a corrupted byte turns into)
             pos = rng.randrange(len(full))
@@ -307,8 +320,17 @@ class Gen:
         rng = self.rng
         self.hostile += 1
         nid = self.a_node()
-        which = rng.randrange(7)
-        if which == 0:  # bad payload for the sub-type's rule
+        which = rng.randrange(8)
+        if which == 7:
+            # child id out of range (or, for a stream frame, not 255) with a sub-type drawn over the whole table -
+            # also 3 and 4, which only for INTERNAL messages (id request / response) excuse an odd child id
+            cmd = rng.choice([0, 1, 2, 4])
+            sub = rng.choice([3, 4, 3, 4, rng.randint(0, tables.sub_max(self.version, cmd))])
+            cid = rng.choice([256, 300, 999, -1]) if cmd != 4 or rng.random() < 0.5 else rng.choice([0, 1, 254])
+            rule = tables.payload_rule(self.version, cmd, min(sub, tables.sub_max(self.version, cmd)))
+            payload = "" if cmd == 2 else ("0A0001005000D4460102" if cmd == 4 and sub == 0 else ("010001000000" if cmd == 4 else self.payload(rule, valid=True)))
+            self.emit_line(f"{nid};{cid};{cmd};0;{sub};{payload}")
+        elif which == 0:  # bad payload for the sub-type's rule
             cmd = rng.choice([1, 3, 0, 2])
             smax = tables.sub_max(self.version, cmd)
             for _ in range(20):
@@ -418,6 +440,20 @@ class Gen:
         if action == "store" and rng.random() < 0.35:
             # the node asks for the very value the controller just tried to change
             self.emit_line(f"{nid};{cid};2;{rng.choice([0, 1])};{sub};")
+
+    def g_ctl_setpair(self):
+        """Two controller calls for two nodes the gateway does not know, issued back to back (nothing runs in
+        between on the threaded flavours): each must get its own answer (2.x: a presentation request to THAT node)."""
+        rng = self.rng
+        unknown = [n for n in NODE_POOL[:10] + [77, 150] if n not in self.model.nodes]
+        if len(unknown) < 2:
+            return self.g_ctl_set()
+        a, b = rng.sample(unknown, 2)
+        sub = rng.choice([2, 0, 24])
+        rule = tables.payload_rule(self.version, 1, sub)
+        self.ops.append(["setpair", [a, rng.choice(CHILD_POOL), sub, self.payload(rule, valid=True).rstrip()],
+                         [b, rng.choice(CHILD_POOL), sub, self.payload(rule, valid=True).rstrip()]])
+        return None
 
     def g_ctl_fw(self):
         rng = self.rng
